@@ -5,13 +5,19 @@ From GV Require Export Tables.ObsTypes Tables.Lookup Gen.Obs Tables.Product Tabl
 
 Inductive pclass := ClsBMV | ClsSmartBMV | ClsMPPT | ClsMPPTLoad | ClsPhoenix | ClsUnsupported.
 
-(* product class from type and panel current (type numbers as in veproduct.Type) *)
+(* the current rating of a charger: the second number of its model designation ("75|15",
+   "100|20 48V"); the accessor MaxPanelCurrent is C13's subject and is not consulted here, so
+   that a wrong accessor cannot make a wrong list look right *)
+Definition rating (o : prod_obs) : Z :=
+  match parse_panel (p_model o) with Some (_, i) => i | None => p_maxi o end.
+
+(* product class from type and current rating (type numbers as in veproduct.Type) *)
 Definition class_of (o : prod_obs) : pclass :=
   if negb (p_exists o) then ClsUnsupported
   else if p_type o =? 1 then ClsBMV                                  (* BMV *)
   else if (p_type o =? 2) || (p_type o =? 10) then ClsSmartBMV       (* BMV Smart, SmartShunt *)
   else if (p_type o =? 3) || (p_type o =? 4) then                    (* BlueSolar / SmartSolar MPPT *)
-    (if (p_maxi o =? 10) || (p_maxi o =? 15) || (p_maxi o =? 20) then ClsMPPTLoad else ClsMPPT)
+    (if (rating o =? 10) || (rating o =? 15) || (rating o =? 20) then ClsMPPTLoad else ClsMPPT)
   else if (p_type o =? 7) || (p_type o =? 8) then ClsPhoenix         (* Phoenix Inverter (Smart) *)
   else ClsUnsupported.                                               (* VE.Can MPPT, IP43 charger, unknown *)
 
